@@ -354,6 +354,17 @@ d(y, dual(undual(l) + 3)) <-- d(x,l), e(y,x);
 r(x,k) <-- d(x,l), let k = undual(l), if k < 4;
 """, "lat par life", bound=4)
 
+prog("lat_val_bound", """
+rel e(int,int) input; lat d(int,dual_i32); rel at1(int); rel cnt2(int); rel nk(int,int); rel pairs(int,int);
+d(0, dual(0));
+d(y, dual(undual(l) + 1)) <-- d(x,l), e(x,y);
+d(y, dual(undual(l) + 3)) <-- d(x,l), e(y,x);
+at1(x) <-- d(x, dual(1));
+cnt2(n) <-- agg n = count() in d(_, dual(2));
+nk(x,v) <-- e(x,_), for v in 0..5, !d(x, dual(v));
+pairs(x,y) <-- d(x,l), d(y,l), if x < y;
+""", "lat agg par", bound=4)
+
 # ------------------------------------------------------------------------------------------------ agg / neg (C04)
 prog("count_paths", """
 rel e(int,int) input; rel p(int,int); rel cnt(int); rel outdeg(int,int);
